@@ -27,7 +27,7 @@ opaque("sleep", pure=True, raises=[], note="asyncio.sleep: no effect on the stat
 contract(
     RT, "RuntimeV2_x.process_events", prop="C10",
     block=("new_event: Optional[Union[dict, Event]] = event", "while new_event is not None"),
-    vars={"state": "V", "event": "V", "new_event": "V"},
+    vars={"state": "V", "event": "V", "new_event": "V"}, must_reach=["new_event = Event(..."],
     ghost_lists=["fed"],
     requires=["is_obj(state)", "not is_none(event)"],
     ensures=["is_none(new_event)", "llen(fed) >= 1", "item(fed, 0) is event",
